@@ -136,6 +136,9 @@ pub fn analyze(sc: &Scenario, out: &RunOut) -> Analysis {
         }
     }
 
+    // Connection lists of event sources (connections can be added after the bench was built).
+    let mut src_lists: Vec<Vec<Conn>> = spec.srcs.clone();
+
     let mut now: i64 = 0;
     let mut cur_cmd: usize = 0;
     let mut cmd_start_now: i64 = 0;
@@ -337,7 +340,7 @@ pub fn analyze(sc: &Scenario, out: &RunOut) -> Analysis {
                             if r.next == Some(*t) {
                                 let recips: Vec<(usize, i64, u32)> = match r.target {
                                     Target::Node(nd) => vec![(nd, r.val, 0)],
-                                    Target::Src(s) => conns_recips(spec, &spec.srcs[s], r.val).0,
+                                    Target::Src(s) => conns_recips(spec, &src_lists[s], r.val).0,
                                 };
                                 let mut recips = recips;
                                 let tgt = r.target;
@@ -546,7 +549,7 @@ pub fn analyze(sc: &Scenario, out: &RunOut) -> Analysis {
                 let conns: Vec<Conn> = if *node == DRIVER {
                     vec![Conn::To { node: *port, mode: Mode::Plain }]
                 } else if *node == SOURCE {
-                    if q { spec.qsrcs[*port].clone() } else { spec.srcs[*port].clone() }
+                    if q { spec.qsrcs[*port].clone() } else { src_lists[*port].clone() }
                 } else if q && *port >= UNI_BASE {
                     vec![spec.nodes[*node].unis[*port - UNI_BASE]]
                 } else if q {
@@ -700,6 +703,9 @@ pub fn analyze(sc: &Scenario, out: &RunOut) -> Analysis {
                         }
                     }
                 }
+            }
+            Ev::ConnectSrc { src, conn } => {
+                src_lists[*src].push(*conn);
             }
             Ev::ConnectVia { node, port, conn } => {
                 let l = port_map[*node][*port];
